@@ -13,7 +13,8 @@ from harness.common import F, enc, fl
 
 ID = "C04"
 PROPS_FILE = "Props/C04.v"
-COQ_IMPORTS = "From SA Require Import Model.HarnessMetrics."
+COQ_IMPORTS = ("From SA Require Import Model.HarnessMetrics.\nFrom SA Require Model.FloatMetrics.\n"
+               "From Coq Require Import Floats.PrimFloat.")
 GEN_AVAILABLE = set()
 CHUNK = 14  # cases per generated .v file (literals with 2^53 denominators are slow to parse; files run in parallel)
 RULE = ("structured 2x2 matrices (all-zero, each zero row / zero column, single non-zero cell, diagonal, anti-diagonal, "
@@ -25,7 +26,10 @@ TRUSTED = ["NumPy elementwise arithmetic on a stacked array = the scalar operati
            "scipy.stats.norm.isf and np.sqrt are oracles (Section variables): the CI theorems assume sqrt is a function "
            "of its argument's value, sqrt >= 0, isf antitone; the oracle compares z with the standard library's "
            "statistics.NormalDist().inv_cdf (1e-9 relative)",
-           "IEEE-754: a rate of an integer matrix is one correctly rounded division (demanded exactly by the oracle)"]
+           "IEEE-754: a rate of an integer matrix is one correctly rounded division (demanded exactly by the oracle)",
+           "Model/FloatMetrics.v: binary64 model (Coq primitive floats, kernel-evaluated) of the eight two-term rates and of "
+           "binomial_ci (p, sqrt((p(1-p))/n), z*std, p -+ dist) with the recorded z; compared bit for bit, NaN matching NaN, on "
+           "every matrix whose cells are doubles (integer matrices below 2^53)"]
 ASSUMPTIONS = ["finite non-negative cells whose sums do not overflow (|cell| < 2^200) and integer cells below 2^53",
                "float matrices whose sums round: definitions compared up to 4 ulp, identities '= 1' up to 2^-49",
                "alpha strictly inside (0,1); the two alphas of a case differ by at least 1%"]
@@ -182,7 +186,46 @@ def _exact_sums(m):
     return True
 
 
+F_RATES = ["tpr", "fnr", "tnr", "fpr", "ppv", "npv", "fdr", "for_"]
+F_CIS = ["tpr_ci", "tnr_ci", "fpr_ci", "fnr_ci"]
+
+
+def _f(v):
+    return "PrimFloat.nan" if v is None else cq.f64(float(F(v)))
+
+
+def _float_terms(case, res):
+    """binary64 model (Model/FloatMetrics.v): the eight two-term rates and the four intervals, bit for bit"""
+    r = res["ok"]["metrics"]
+    mats = []
+    for k, m in enumerate(case["mats"]):
+        cells = [F(x) for x in m]
+        if any(Fraction(float(c)) != c for c in cells) or (case["dtype"] == "int" and sum(cells) >= 2 ** 53):
+            return []
+        mats.append((k, "(FloatMetrics.mkFcm " + " ".join(cq.f64(float(c)) for c in (cells[0], cells[1], cells[2], cells[3])) + ")"))
+    if not mats:
+        return []
+    rates = "; ".join(f"({t}, [{'; '.join(_f(r[nm]['vals'][k]) for nm in F_RATES)}])" for k, t in mats)
+    terms = [f"FloatMetrics.frates_check [{rates}]"]
+    for ai in range(len(case["alphas"])):
+        z = F(res["ok"]["z"][ai])
+        if z is None or z in (math.inf, -math.inf):
+            continue
+        rows = "; ".join("(%s, [%s])" % (t, "; ".join(
+            f"({_f(r[nm][ai]['vals'][2 * k])}, {_f(r[nm][ai]['vals'][2 * k + 1])})" for nm in F_CIS)) for k, t in mats)
+        terms.append(f"FloatMetrics.fcis_check {cq.f64(float(z))} [{rows}]")
+    return terms
+
+
 def coq_term(case, res):
+    t = _coq_term_exact(case, res)
+    if t is None or t == "false" or "ok" not in res:
+        return t
+    ft = _float_terms(case, res)
+    return f"({t} && " + " && ".join(ft) + ")" if ft else t
+
+
+def _coq_term_exact(case, res):
     if "ok" not in res:
         return "false"
     r = res["ok"]["metrics"]
